@@ -182,7 +182,12 @@ def gen_world(seed, tier):
         if cname.startswith("Min") and rng.random() < 0.3:
             seq = ["get_lowerbound_k"] + seq
         long_pause_before = None
-        if "time_limit" in so0 and args.get("solver_options") == "@so0" and rng.random() < 0.6:
+        own_limit = None
+        if cname in ("MinFlowDecomp", "MinFlowDecompCycles", "MinPathCover", "MinPathCoverCycles") and rngn.random() < 0.3:
+            # the minimum searches keep a clock of their own: give the model a private budget and use it again much later
+            own_limit = rngn.choice([200, 3600])
+            args["solver_options"] = {"time_limit": own_limit}
+        if own_limit is not None or ("time_limit" in so0 and args.get("solver_options") == "@so0" and rng.random() < 0.6):
             # a budgeted model that is used again after more wall time than its whole budget has passed
             seq = seq + ["solve"]
             long_pause_before = len(seq) - 1
@@ -191,12 +196,13 @@ def gen_world(seed, tier):
         for si, s in enumerate(seq):
             if si == long_pause_before:
                 # ... or after almost all of it has passed
-                fr = rng.choice([2, 10, 0.97, 0.99, 0.999])
+                fr = rng.choice([2, 10, 0.97, 0.99, 0.999, 0.99999])
+                lim_ = own_limit if own_limit is not None else so0["time_limit"]
                 if fr > 1:
-                    ops.append({"op": "pause", "h": h, "seconds": so0["time_limit"] * fr})
+                    ops.append({"op": "pause", "h": h, "seconds": lim_ * fr})
                 else:
                     # measured from this model's first use, as a wall clock started then would see it
-                    ops.append({"op": "pause", "h": h, "seconds": 0, "until_fraction_of_limit": fr, "limit": so0["time_limit"]})
+                    ops.append({"op": "pause", "h": h, "seconds": 0, "until_fraction_of_limit": fr, "limit": lim_})
             if rng.random() < 0.25 and long_pause_before is None:
                 # the caller does something else for a while: (virtual) wall time passes between two calls
                 ops.append({"op": "pause", "h": h, "seconds": rng.choice([30, 100, 1000, 5000, 20000])})
@@ -209,6 +215,9 @@ def gen_world(seed, tier):
            "reply_seed": rng.randrange(1 << 30), "faults": []}
     if rng.random() < 0.35:
         sim["faults"] = [{"at": rng.randrange(0, 4), "kind": rng.choice(["interrupt", "time_limit_with_incumbent", "time_limit_no_incumbent", "exception"])}]
+    if any(o.get("until_fraction_of_limit") for o in ops) and rngn.random() < 0.7:
+        # a budget that is almost used up only bites when solving takes time: realistic solver latencies (1 ms .. 10 s)
+        sim["latency"] = "realistic"
     return {"pool": pool, "ops": ops, "sim": sim,
             "knobs": {"subgraph_lowerbound_size": rng.choice([2, 3]), "subgraph_lowerbound_shift": rng.choice([1, 2])}}
 
